@@ -2038,7 +2038,7 @@ namespace xsimd
         XSIMD_INLINE batch<T, A> nextafter(batch<T, A> const& from, batch<T, A> const& to, requires_arch<generic>) noexcept
         {
             using kernel = detail::nextafter_kernel<T, A>;
-            return select(from == to, from,
+            return select(from == to, to,
                           select(isnan(from) || isnan(to), from + to,
                                  select(to > from, kernel::next(from), kernel::prev(from))));
         }
